@@ -320,6 +320,22 @@ func (g *gen) corrupt(p *Plan) {
 			op0 = ROp{Op: "drain", Sizes: []int{4096}, Max: 1}
 		}
 		r.Ops = append([]ROp{op0, {Op: "reset", Src: 1}}, r.Ops...)
+		if r.Srcs[1].Stored.Tail2 == nil && g.r.Chance(1, 2) {
+			// the second stream: this frame's header (small blocks) in front
+			// of the blocks of a frame with larger blocks, every checksum
+			// consistent - only the declared block maximum gives it away
+			o2 := o1
+			o2.BSum = st.Base == "lz4w" && st.Opts.BSum || st.Base == "refenc" && st.Enc.BSum
+			o2.CSum = false
+			n2 := g.r.PickInt(bsBytes(o2.BS), 2*bsBytes(o2.BS)+17)
+			in2 := g.input(n2)
+			in2.Class = g.r.PickStr("random", "mixed", "text")
+			p.Inputs = append(p.Inputs, in2)
+			t2 := Stored{Base: "lz4w", Opts: &o2, In: len(p.Inputs) - 1}
+			s2 := &r.Srcs[1].Stored
+			s2.Tail2 = &t2
+			s2.Mut = append(s2.Mut, Mutation{Kind: "splice", Block: 0, B2: 0})
+		}
 	}
 	p.Readers = []RScript{r}
 	p.Phases = [][]string{{"R0"}}
@@ -433,7 +449,7 @@ func (g *gen) hostileGrammar() *Hostile {
 	if g.r.Chance(1, 3) {
 		flg |= 0x08
 		it.Has = true
-		it.Size = []uint64{0, 1, 1 << 32, 1<<63 - 1, 1<<64 - 1, 65536}[g.r.Intn(6)]
+		it.Size = []uint64{0, 1, 1 << 32, 1<<63 - 1, 1<<64 - 1, 65536, 1 << 28, 1 << 30, 1<<31 - 1, 100 << 20}[g.r.Intn(10)]
 	}
 	if g.r.Chance(1, 10) {
 		flg ^= uint32(1 << uint(g.r.Intn(8))) // version / reserved / dict bits
